@@ -787,7 +787,8 @@ class Bin(Factory, Container):
         # trivial case
         if low is None and high is None:
             bw = self.bin_width()
-            return np.arange(self.low + bw / 2.0, self.high + bw / 2.0, bw)
+            # one centre per bin (np.arange with a float step can yield an extra element)
+            return self.low + (np.arange(len(self.values)) + 0.5) * bw
         # catch weird cases
         if low is not None and high is not None:
             if low > high:
